@@ -66,6 +66,10 @@ def run(ctx: Context) -> None:
     ctx.rule(r7_restore_order, pl)
     ctx.rule(r8_restore_is_read_only, pl)
     ctx.rule(r9_suffix_slices, pl)
+    # the sampler id table is rebuilt, not stored: the restored table equals the saved one only if its construction is deterministic across
+    # processes (first-seen order, never the iteration order of a set) - shared with C18-R1
+    from . import c18
+    ctx.rule(c18.r1_writers)
 
 
 def _self_path(e: ast.expr, self_name: str | None) -> str | None:
